@@ -34,6 +34,7 @@ class _Server:
     proc = None
     crashes = 0
     counter = 0
+    pending_drops: list = []  # sessions released by the garbage collector; flushed at the next safe point
 
     @classmethod
     def start(cls):
@@ -49,7 +50,10 @@ class _Server:
 
         if cls.proc is None or cls.proc.poll() is not None:
             cls.start()
+            cls.pending_drops.clear()
         try:
+            while cls.pending_drops:  # never write from __del__: it may run in the middle of another request
+                pickle.dump(("drop", cls.pending_drops.pop()), cls.proc.stdin, protocol=pickle.HIGHEST_PROTOCOL)
             pickle.dump(msg, cls.proc.stdin, protocol=pickle.HIGHEST_PROTOCOL)
             cls.proc.stdin.flush()
             if not expect_reply:
@@ -96,8 +100,7 @@ class RemoteSession:
 
     def __del__(self):
         try:
-            if _Server.proc is not None and _Server.proc.poll() is None:
-                _Server.call(("drop", self.key), expect_reply=False)
+            _Server.pending_drops.append(self.key)
         except Exception:  # noqa: BLE001
             pass
 
